@@ -564,6 +564,23 @@ def runner_truth(runner):
             'failed': runner.failed}
 
 
+def _bracket_report(w):
+    """In a forked child: mark on the tape where the report to the parent begins and ends."""
+    import zope.testrunner.process as ZP
+    cls = getattr(ZP, 'SubProcess', None)
+    orig = getattr(cls, 'report', None)
+    if orig is None:
+        return
+
+    def report(self, *a, **kw):
+        _tape_write(w, b'M', b'')
+        try:
+            return orig(self, *a, **kw)
+        finally:
+            _tape_write(w, b'N', b'')
+    cls.report = report
+
+
 def run_child_forked(child_args, world, plan, simpid, clock_base):
     """Run the real runner for one layer in a forked process; return (tape, wait status)."""
     r, w = os.pipe()
@@ -590,6 +607,7 @@ def run_child_forked(child_args, world, plan, simpid, clock_base):
             rt.orig_stderr = out     # SubProcess.global_setup aliases stderr to stdout
             rt.real_stderr = err
             RecordingRunner.instances[:] = []
+            _bracket_report(w)
             try:
                 failed = zope.testrunner.run_internal(None, list(child_args))
                 code = int(bool(failed))
@@ -790,6 +808,19 @@ class SimThread:
 
     def __init__(self, group=None, target=None, name=None, args=(), kwargs=None,
                  daemon=None):
+        if not isinstance(self, SimThread):
+            # an instance of a class that subclassed the REAL threading.Thread when its module
+            # was imported and now calls threading.Thread.__init__(self): initialise it as a
+            # real thread object (never started) and let the simulator run its run()
+            real_threading.Thread.__init__(self, group=group, target=target, name=name,
+                                           args=args, kwargs=kwargs, daemon=daemon)
+            sim = SimThread.__new__(type('Thread', (SimThread,), {'_env': CURRENT_ENV}))
+            SimThread.__init__(sim, name=name, daemon=daemon)
+            sim.run = self.run
+            self.__dict__['_vsim'] = sim
+            for m in ('start', 'join', 'is_alive', 'isAlive'):
+                self.__dict__[m] = getattr(sim, m)
+            return
         env = self._env
         env.nthreads += 1
         self.name = name or 'SimThread-%d' % env.nthreads
@@ -1006,10 +1037,13 @@ class Env:
             died = 'signal:%d' % os.WTERMSIG(status)
         elif exitcode is None:
             died = 'exit:%d' % os.WEXITSTATUS(status)
-        # locate the report: E bytes after the C (close stdout) record
+        # locate the report: the E bytes written inside SubProcess.report (bracketed by M/N
+        # records when that method exists to be wrapped), else the E bytes after the child
+        # closed its stdout (C record)
+        anchor = 'M' if any(t == 'M' for t, _ in tape) else 'C'
         closed_at = None
         for i, (tag, payload) in enumerate(tape):
-            if tag == 'C':
+            if tag == anchor:
                 closed_at = i
         report = b''
         if closed_at is not None:
@@ -1045,7 +1079,7 @@ class Env:
                         if past:
                             break
                         out.append(rec)
-                        if rec[0] == 'C':
+                        if rec[0] == anchor:
                             # from here on count E bytes
                             rest = newtape[i + 1:]
                             for rec2 in rest:
@@ -1056,7 +1090,7 @@ class Env:
                                     seen += take
                                     if seen >= off:
                                         break
-                                elif rec2[0] in ('T', 'F'):
+                                elif rec2[0] in ('T', 'F', 'C', 'N'):
                                     out.append(rec2)
                             out.append(('K', None))
                             past = True
@@ -1116,7 +1150,7 @@ class Env:
         for tag, payload in newtape:
             if tag in ('K', 'D'):
                 break
-            if tag == 'C':
+            if tag == anchor:
                 seen_close = True
             elif tag == 'E' and seen_close:
                 delivered += payload
@@ -1127,7 +1161,7 @@ class Env:
         pre = b''
         seen_c = False
         for tag, payload in newtape:
-            if tag == 'C':
+            if tag == anchor:
                 seen_c = True
             elif tag == 'E' and not seen_c:
                 pre += payload
@@ -1149,6 +1183,9 @@ class Env:
         return info
 
 
+_LOCK_TYPE = type(real_threading.Lock())
+_RLOCK_TYPE = type(real_threading.RLock())
+CURRENT_ENV = None     # the Env of the execution in progress (for adopted foreign objects)
 SEAM_MODULES = ('zope.testrunner.runner', 'zope.testrunner.statistics',
                 'zope.testrunner.shuffle', 'zope.testrunner.formatter',
                 'zope.testrunner.process', 'zope.testrunner')
@@ -1194,6 +1231,20 @@ def _pristine(mod):
                 found[k] = 'queue.Queue'
             elif v is real_queue.SimpleQueue:
                 found[k] = 'queue.SimpleQueue'
+            # module-level synchronisation objects (created when the module was imported,
+            # i.e. real ones): every execution gets a simulated instance in their place
+            elif isinstance(v, real_threading.Event):
+                found[k] = 'inst:threading.Event'
+            elif type(v) is _LOCK_TYPE:
+                found[k] = 'inst:threading.Lock'
+            elif type(v) is _RLOCK_TYPE:
+                found[k] = 'inst:threading.RLock'
+            elif isinstance(v, real_threading.Condition):
+                found[k] = 'inst:threading.Condition'
+            elif isinstance(v, real_threading.Semaphore):
+                found[k] = 'inst:threading.Semaphore'
+            elif isinstance(v, real_queue.Queue):
+                found[k] = 'inst:queue.Queue'
         _PRISTINE[mod.__name__] = found
     return _PRISTINE[mod.__name__]
 
@@ -1250,6 +1301,11 @@ def install_seams(env, real=False):
         except ImportError:
             continue
         for k, what in _pristine(mod).items():
+            if what.startswith('inst:'):
+                if not real:
+                    base, _, attr = what[5:].partition('.')
+                    setattr(mod, k, getattr(ns[base], attr)())
+                continue
             base, _, attr = what.partition('.')
             if not attr:
                 setattr(mod, k, ns[base])
@@ -1286,6 +1342,8 @@ def execute(spec, options, sched_mode=None, knobs=None, defaults=None, label='ma
     rt = simrt.install(spec['world'], spec.get('plan', []), 0, None)
     env.trace = rt.trace
     install_seams(env)
+    global CURRENT_ENV
+    CURRENT_ENV = env
     log = []
     out = TagStream(log, 'O', ascii_only=bool(knobs.get('parent_stdout_ascii')))
     err = TagStream(log, 'E')
